@@ -42,6 +42,8 @@ func runC07(c *Ctx) {
 	c07R1Index(c)
 	c07R1Remove(c)
 	c07R1Predecessors(c)
+	c07R1Key(c)
+	c07R1Forwarders(c)
 	c07R2Push(c)
 	c07R2Delete(c)
 	c07R2Load(c)
@@ -131,7 +133,7 @@ func c07EveryIteration(body Edge, header *ssa.BasicBlock, ins ...ssa.Instruction
 
 func c07R1Index(c *Ctx) {
 	const R = "C07.R1.inverse-relation"
-	c.Expect(R, 14)
+	c.Expect(R, 20)
 	var fns []*ssa.Function
 	for _, f := range c.P.FuncsOfPkg("internal/graph") {
 		if f.Parent() == nil && len(CallsTo(f, "~/content.Successors")) > 0 {
@@ -490,6 +492,131 @@ func c07R1Predecessors(c *Ctx) {
 		}
 	}
 	c.Check(R, tn+"|returns-the-collected-slice", fn.Pos(), okRes, ifelse(okRes, "the result is nil or the slice built in the loop", "Predecessors returns something other than the collected slice"))
+	// a result is produced without the loop only when predecessors[key(node)] is absent
+	miss := newCut().Instr(loop.Header.Instrs[0])
+	AllInstrs(fn, func(in ssa.Instruction) {
+		lk, isL := in.(*ssa.Lookup)
+		if !isL || !lk.CommaOk || !c07MapOf(lk.X, "predecessors") || !isNodeKey(lk.Index) {
+			return
+		}
+		for _, r := range *lk.Referrers() {
+			if e, isE := r.(*ssa.Extract); isE && e.Index == 1 {
+				_, fe := BoolTests(fn, Aliases(e))
+				miss.Edges(fe...)
+			}
+		}
+	})
+	okMiss := true
+	for _, r := range Returns(fn) {
+		if ReachableFromEntry(r) && !MustPass(r, miss) {
+			okMiss = false
+		}
+	}
+	c.Check(R, tn+"|empty-only-when-no-predecessor-entry", fn.Pos(), okMiss,
+		ifelse(okMiss, "every return either ran the loop over predecessors[key(node)] or took the lookup's absent edge", "Predecessors can return without consulting predecessors[key(node)] (e.g. when the node itself is not stored): parents of an absent node are omitted"))
+}
+
+// c07R1Key: the graph key descriptor.FromOCI(d) carries d's MediaType, Digest and Size.
+func c07R1Key(c *Ctx) {
+	const R = "C07.R1.inverse-relation"
+	fn := c.P.Fn("internal/descriptor", "FromOCI")
+	if fn == nil || len(fn.Blocks) == 0 || len(fn.Params) != 1 {
+		c.LostAnchor(R, c07FromOCI)
+		return
+	}
+	ok, detail := true, "the key copies MediaType, Digest and Size of the descriptor"
+	n := 0
+	for _, r := range Returns(fn) {
+		for _, v := range Roots(c05Unspill(r.Results[0])) {
+			n++
+			al, isAl := v.(*ssa.UnOp)
+			var lit *ssa.Alloc
+			if isAl {
+				lit, _ = al.X.(*ssa.Alloc)
+			}
+			if a, isA := v.(*ssa.Alloc); isA {
+				lit = a
+			}
+			if lit == nil {
+				ok, detail = false, "FromOCI returns "+describe(v)+": not a key literal"
+				continue
+			}
+			got := map[string]bool{}
+			for _, ref := range *lit.Referrers() {
+				fa, isFA := ref.(*ssa.FieldAddr)
+				if !isFA {
+					continue
+				}
+				name := c05FieldNameOf(fa.X.Type(), fa.Field)
+				for _, r2 := range *fa.Referrers() {
+					if st, isSt := r2.(*ssa.Store); isSt && st.Addr == ssa.Value(fa) && c05FieldOfParam(st.Val, name) == fn.Params[0] {
+						got[name] = true
+					}
+				}
+			}
+			for _, f := range []string{"MediaType", "Digest", "Size"} {
+				if !got[f] {
+					ok, detail = false, "the graph key does not carry the descriptor's "+f+": distinct nodes collapse into one key (extras / omissions in Predecessors)"
+				}
+			}
+		}
+	}
+	c.Check(R, FnName(fn)+"|key-identifies-node", fn.Pos(), ok && n > 0, detail)
+}
+
+// c07R1Forwarders: the stores' Predecessors hand back the graph's answer for
+// the node they were asked about, without filtering.
+func c07R1Forwarders(c *Ctx) {
+	const R = "C07.R1.inverse-relation"
+	type t struct{ pkg, name string }
+	for _, x := range []t{{"content/memory", "Store.Predecessors"}, {"content/oci", "Store.Predecessors"}, {"content/oci", "ReadOnlyStore.Predecessors"}, {"content/file", "Store.Predecessors"}} {
+		fn := c.P.Fn(x.pkg, x.name)
+		if fn == nil || len(fn.Blocks) == 0 {
+			c.LostAnchor(R, x.pkg+"."+x.name)
+			continue
+		}
+		node := c07DescParam(fn)
+		var gp []*ssa.Call
+		for _, call := range CallsTo(fn, "(*~/internal/graph.Memory).Predecessors") {
+			a := call.Common().Args
+			if cc, isCall := call.(*ssa.Call); isCall && node != nil && c05ParamOf(a[len(a)-1]) == node {
+				gp = append(gp, cc)
+			}
+		}
+		ok, detail := len(gp) > 0, "every return is the graph's answer for the same node, or an error"
+		errIdx := ErrResultIndex(fn.Signature)
+		for _, r := range Returns(fn) {
+			if !ReachableFromEntry(r) {
+				continue
+			}
+			allNonNil := errIdx >= 0
+			if errIdx >= 0 {
+				for _, ev := range Roots(r.Results[errIdx]) {
+					if ErrNilStatus(ev, 0) != NonNil {
+						allNonNil = false
+					}
+				}
+			}
+			if allNonNil {
+				continue // refusal (e.g. store closed)
+			}
+			for _, v := range Roots(r.Results[0]) {
+				e, isE := v.(*ssa.Extract)
+				good := false
+				if isE && e.Index == 0 {
+					for _, g := range gp {
+						if e.Tuple == ssa.Value(g) {
+							good = true
+						}
+					}
+				}
+				if !good {
+					ok, detail = false, "a path returns "+describe(v)+" with a possibly-nil error instead of graph.Predecessors(node): predecessors are filtered or replaced (e.g. hidden when the node itself is absent)"
+				}
+			}
+		}
+		c.Check(R, FnName(fn)+"|returns-graph-answer", fn.Pos(), ok, detail)
+	}
 }
 
 // ---------------------------------------------------------------- R2
@@ -725,14 +852,14 @@ func c07R2GC(c *Ctx) {
 					ok = false
 				}
 			}
-			// no other graph is indexed into in this function
+			// no other graph is indexed into in this function, and roots are indexed transitively
 			for _, ia := range CallsTo(fn, c07IdxAll, c07Index) {
-				if !SameValue(ia.Common().Args[0], G.Value()) {
+				if !SameValue(ia.Common().Args[0], G.Value()) || CalleeName(ia) != c07IdxAll {
 					ok = false
 				}
 			}
 			c.Check(R, tn+"|rebuilt-graph-installed", G.Pos(), ok,
-				ifelse(ok, fmt.Sprintf("the %d IndexAll call(s) fill the new graph and every successful path installs it as s.graph", len(ias)), "GC rebuilds a predecessor graph but does not install it on every successful path (or indexes into another graph): Predecessors after GC reports removed manifests or misses kept ones"))
+				ifelse(ok, fmt.Sprintf("the %d IndexAll call(s) fill the new graph and every successful path installs it as s.graph", len(ias)), "GC rebuilds a predecessor graph but does not install it on every successful path, indexes into another graph, or indexes roots without their descendants (Index instead of IndexAll): Predecessors after GC reports removed manifests or misses kept ones"))
 		}
 	}
 	if n == 0 {
@@ -891,8 +1018,12 @@ func c07R3(c *Ctx) {
 
 func c07R4(c *Ctx) {
 	const R = "C07.R4.lock-discipline"
-	c.Expect(R, 13) // 16 on the pinned tree
+	c.Expect(R, 18) // 23 on the pinned tree
 	LockCheck(c, R, []GuardSpec{c06GraphSpec()}, []string{"internal/graph"})
+	// the OCI store swaps its graph pointer in GC: readers of s.graph hold s.sync (the unsafeStore exemption is proved under C06.R1)
+	LockCheck(c, R, []GuardSpec{{Type: "~/content/oci.Store", Fields: []string{"graph"}, Lock: "sync", Exempt: map[string]string{
+		"(*~/content/oci.unsafeStore).Predecessors": c06UnsafeWhy,
+	}}}, []string{"content/oci"})
 }
 
 var c07Mutants = []Mutant{
@@ -911,7 +1042,11 @@ var c07Mutants = []Mutant{
 	// R1 Predecessors
 	{Name: "predecessors-result-capped", File: "internal/graph/memory.go", Old: "\t\tres = append(res, m.nodes[k])\n", New: "\t\tif len(res) < 16 {\n\t\t\tres = append(res, m.nodes[k])\n\t\t}\n", Expect: "C07.R1.inverse-relation|(*~/internal/graph.Memory).Predecessors|one-result-per-predecessor"},
 	{Name: "predecessors-reads-successors", File: "internal/graph/memory.go", Old: "\tset, exists := m.predecessors[key]\n", New: "\tset, exists := m.successors[key]\n", Expect: "C07.R1.inverse-relation|(*~/internal/graph.Memory).Predecessors|ranges-over-own-predecessor-set"},
+	{Name: "graph-key-without-media-type", File: "internal/descriptor/descriptor.go", Old: "\treturn Descriptor{\n\t\tMediaType: desc.MediaType,\n\t\tDigest:    desc.Digest,", New: "\treturn Descriptor{\n\t\tDigest:    desc.Digest,", Expect: "C07.R1.inverse-relation|~/internal/descriptor.FromOCI|key-identifies-node"},
+	{Name: "predecessors-hidden-for-absent-node", File: "internal/graph/memory.go", Old: "\tkey := descriptor.FromOCI(node)\n\tset, exists := m.predecessors[key]\n", New: "\tkey := descriptor.FromOCI(node)\n\tif _, present := m.nodes[key]; !present {\n\t\treturn nil, nil\n\t}\n\tset, exists := m.predecessors[key]\n", Expect: "C07.R1.inverse-relation|(*~/internal/graph.Memory).Predecessors|empty-only-when-no-predecessor-entry"},
+	{Name: "readonly-store-filters-predecessors-of-absent-blob", File: "content/oci/readonlyoci.go", Old: "\treturn s.graph.Predecessors(ctx, node)", New: "\tif exists, err := s.storage.Exists(ctx, node); err != nil || !exists {\n\t\treturn nil, err\n\t}\n\treturn s.graph.Predecessors(ctx, node)", Expect: "C07.R1.inverse-relation|(*~/content/oci.ReadOnlyStore).Predecessors|returns-graph-answer"},
 	// R2
+	{Name: "gc-indexes-roots-only", File: "content/oci/oci.go", Old: "\t\tplain := descriptor.Plain(desc)\n\t\tif err := graph.IndexAll(ctx, s.storage, plain); err != nil {\n\t\t\treturn err\n\t\t}\n\t\ttagged.Add(desc.Digest)", New: "\t\tplain := descriptor.Plain(desc)\n\t\tif err := graph.Index(ctx, s.storage, plain); err != nil {\n\t\t\treturn err\n\t\t}\n\t\ttagged.Add(desc.Digest)", Expect: "C07.R2.every-push-indexed|(*~/content/oci.Store).gcIndex|rebuilt-graph-installed"},
 	{Name: "memory-push-not-indexed", File: "content/memory/memory.go", Old: "\treturn s.graph.Index(ctx, s.storage, expected)", New: "\treturn nil", Expect: "C07.R2.every-push-indexed|(*~/content/memory.Store).Push|index-on-every-success"},
 	{Name: "oci-push-index-error-ignored", File: "content/oci/oci.go", Old: "\tif err := s.graph.Index(ctx, s.storage, expected); err != nil {\n\t\treturn err\n\t}\n", New: "\t_ = s.graph.Index(ctx, s.storage, expected)\n", Expect: "C07.R2.every-push-indexed|(*~/content/oci.Store).Push|index-error-returned"},
 	{Name: "file-push-forcecas-not-indexed", File: "content/file/file.go", Old: "\treturn s.graph.Index(ctx, s, expected)", New: "\tif s.ForceCAS {\n\t\treturn nil\n\t}\n\treturn s.graph.Index(ctx, s, expected)", Expect: "C07.R2.every-push-indexed|(*~/content/file.Store).Push|index-on-every-success"},
@@ -926,5 +1061,6 @@ var c07Mutants = []Mutant{
 	{Name: "ismanifest-forgets-docker-manifest-list", File: "internal/descriptor/descriptor.go", Old: "\tcase docker.MediaTypeManifest,\n\t\tdocker.MediaTypeManifestList,\n", New: "\tcase docker.MediaTypeManifest,\n", Expect: "C07.R3.edge-bearing-kinds-persisted"},
 	// R4
 	{Name: "graph-index-under-read-lock", File: "internal/graph/memory.go", Old: "\tm.lock.Lock()\n\tdefer m.lock.Unlock()\n\n\t// index the node", New: "\tm.lock.RLock()\n\tdefer m.lock.RUnlock()\n\n\t// index the node", Expect: "C07.R4.lock-discipline|(*~/internal/graph.Memory).index|"},
+	{Name: "oci-predecessors-without-store-lock", File: "content/oci/oci.go", Old: "\ts.sync.RLock()\n\tdefer s.sync.RUnlock()\n\n\treturn s.graph.Predecessors(ctx, node)", New: "\treturn s.graph.Predecessors(ctx, node)", Expect: "C07.R4.lock-discipline|(*~/content/oci.Store).Predecessors|"},
 	{Name: "graph-predecessors-without-lock", File: "internal/graph/memory.go", Old: "\tm.lock.RLock()\n\tdefer m.lock.RUnlock()\n\n\tkey := descriptor.FromOCI(node)", New: "\tkey := descriptor.FromOCI(node)", Expect: "C07.R4.lock-discipline|(*~/internal/graph.Memory).Predecessors|"},
 }
